@@ -281,7 +281,53 @@ fn fault_case(rng: &mut Rng, rec: &mut Recorder, scratch: &Path, case: u64) {
     let main = root.join("main.a2l");
     let head = "ASAP2_VERSION 1 71\n/begin PROJECT p \"\"\n/begin MODULE m \"\"\n";
     let tail = "\n/end MODULE\n/end PROJECT\n";
-    let kind = rng.below(7);
+    let kind = rng.below(10);
+    if kind >= 7 {
+        // faults of /include directives inside the A2ML block: reported as an A2ML problem (log entry
+        // in non-strict mode, error in strict mode), never a panic, abort or silent success
+        let (label, incname): (&str, &str) = match kind {
+            7 => {
+                std::fs::write(root.join("self.aml"), "block \"IF_DATA\" struct { int; };\n/include \"self.aml\"\n").unwrap();
+                ("a2ml_self_inclusion", "self.aml")
+            }
+            8 => {
+                std::fs::write(root.join("sub/a.aml"), "struct A { int; };\n/include b.aml\n").unwrap();
+                std::fs::write(root.join("sub/b.aml"), "struct B { int; };\n/include \"a.aml\"\n").unwrap();
+                ("a2ml_mutual_inclusion", "sub/a.aml")
+            }
+            _ => ("a2ml_missing_file", "nowhere.aml"),
+        };
+        let text = format!("{head}/begin A2ML\n  /include \"{incname}\"\n/end A2ML{tail}");
+        std::fs::write(&main, &text).unwrap();
+        rec.eval();
+        rec.label(&format!("include fault {label}"));
+        rec.bump(&format!("fault.{label}"));
+        rec.nontrivial(format!("{label}{incname}").as_bytes());
+        let strict = rng.coin();
+        crate::util::set_budget(200_000);
+        let r = guarded(|| a2lfile::load(&main, None, strict));
+        crate::util::reset_budget();
+        let w = Json::obj().with("fault", Json::s(label)).with("main", Json::s(&text));
+        match r {
+            Err((sig, detail)) => rec.violation(&format!("{sig} [{label}]"), &detail, w),
+            Ok(Ok((_, log))) => {
+                if !log.iter().any(|e| e.to_string().contains("A2ML")) {
+                    rec.violation(
+                        &format!("include fault not reported: {label}"),
+                        &format!("load returned Ok with log {:?}", log.iter().map(|e| e.to_string()).collect::<Vec<_>>()),
+                        w,
+                    );
+                }
+            }
+            Ok(Err(e)) => {
+                if !e.to_string().contains("A2ML") {
+                    rec.violation(&format!("include fault reported by an unrelated error: {label}"), &e.to_string(), w);
+                }
+            }
+        }
+        let _ = std::fs::remove_dir_all(&root);
+        return;
+    }
     let (label, incname, expect_err): (&str, String, bool) = match kind {
         0 => ("missing_file", "nowhere.a2l".into(), true),
         1 => {
@@ -637,7 +683,8 @@ pub fn run(args: &Args, rec: &mut Recorder) {
     });
     let _ = std::fs::remove_dir_all(&scratch);
     for k in ["levels.1", "levels.2", "a2ml_block_with_include", "include_inside_if_data", "fault.missing_file", "fault.directory_instead_of_file",
-        "fault.empty_file", "fault.self_inclusion", "fault.mutual_inclusion", "fault.missing_file_in_nested_include"] {
+        "fault.empty_file", "fault.self_inclusion", "fault.mutual_inclusion", "fault.missing_file_in_nested_include",
+        "fault.a2ml_self_inclusion", "fault.a2ml_mutual_inclusion", "fault.a2ml_missing_file"] {
         rec.floor(k, 2);
     }
 }
